@@ -30,7 +30,6 @@ theorem uniq_pos_map {w : World} (hu : UniqueRef w) {q y : SlabID} {m : OMap 3} 
 theorem deep_map_core {fuel : Nat} (IH : NotifyDeep D rank fuel) {w0 w : World} {ctr0 : Nat} {y : SlabID} {cx : Ctx}
     {hi : HInfo} {c : Cont} {pm : OMap 3} {k : MKey} {el : Elem}
     (P : WPre D rank w0 ctr0 w cx.ctr) (hsame : ∀ z, rank z < rank y → w.cont? z = w0.cont? z)
-    (U : UniqueRef w)
     (hh : AList.find? w.hinfo y = some hi) (hc : w.cont? y = some c)
     (hpm : w.cont? hi.parent = some (.map pm)) (hkey : hi.key = some k)
     (hmem : (k, el) ∈ pm.toList) (hel : el.pay = .ref y) (hpar : HandleOk w hi.parent)
@@ -154,36 +153,38 @@ theorem deep_map_core {fuel : Nat} (IH : NotifyDeep D rank fuel) {w0 w : World} 
           CurKept.of_sig hS12 hidx12 (fun x hix hx _ => by simp only [hinfo_setCont, hh1]; exact hx)
         have hpar2 : HandleOk (w1.setCont hi.parent (.map m')) hi.parent :=
           hpar.transfer (fun p x => (hS12.holds_iff p x).mp) hcur12
-        have U2 : UniqueRef (w1.setCont hi.parent (.map m')) := hS12.uniqueRef U
         -- the induction hypothesis and the account of the recursive notification
-        obtain ⟨tr3, sig3, above3, self3⟩ := IH w0 ctr0 _ hi.parent cx2 w3 cx4 P2 hsame2 U2 hpar2 hnp
+        obtain ⟨tr3, sig3, above3, self3⟩ := IH w0 ctr0 _ hi.parent cx2 w3 cx4 P2 hsame2 hpar2 hnp
         have post23 : Post (w1.setCont hi.parent (.map m')) cx2 w3 cx4 :=
           notifyHeap D rank fuel w0 ctr0 _ hi.parent cx2 w3 cx4 P2 hsame2 hnp
         obtain ⟨qc3, hq3, hf3⟩ := self3 (.map m') (cont?_setCont_self _ _ _)
         have h3y : w3.cont? y = some c1 := by
           rw [above3 y hne (Nat.le_of_lt hrk), cont?_setCont_ne _ _ _ _ hne]; exact hc1
         have hS13 : ContsSig w w3 := hS12.trans sig3
-        have U3 : UniqueRef w3 := hS13.uniqueRef U
         have hqy3 : World.Holds w3 hi.parent y := hS13.holds hpy
         have hy2 : ((w1.setCont hi.parent (.map m')).cont? y).isSome := by
           rw [cont?_setCont_ne _ _ _ _ hne, hc1]; rfl
-        have huq := uniq_pos_map U2 (cont?_setCont_self _ _ _) hy2
-        -- the holder of the reference to `y`
-        have hholdq : ∀ id s, (id, s) ∈ (Cont.map m').treeSlabs → ((Cont.map pm).isInlined = true → id ≠ hi.parent) →
-            (∃ e1 ∈ C10Persist.slabElems s, e1.pay = .ref y) → StoredSince cx1 cx2 id := by
-          intro id s h1 h2 h3
-          rcases Bool.eq_false_or_eq_true pm.isInlined with hi0 | hi0
-          · refine map_hold_inl hcfg (hpok.2 hi0) he2' hpe hs (hok'.2 (by rw [hinl']; exact hi0)) huq id s h1 ?_ h3
-            rw [hrid, hvid]
-            exact h2 hi0
-          · exact map_hold hcfg (hpok.1 hi0).1 he2' hpe hs (hok'.1 (by rw [hinl']; exact hi0)).1 huq id s h1 h3
         have hcw4 : ∀ z, (w3.setCallbackMap hi.parent k (.child y hi.wrap)).cont? z = w3.cont? z :=
           fun z => cont?_setCallbackMap _ _ _ _ _
         refine ⟨?_, ?_, ?_, ?_⟩
-        · exact track_step (w := w) (w1 := w1) (w2 := w1.setCont hi.parent (.map m')) (w3 := w3) (qc := .map pm)
+        · intro U4
+          have U3 : UniqueRef w3 := by
+            refine ContsSig.uniqueRef ⟨(T_setCallbackMap _ _ _ _).symm, fun q => by rw [hcw4]⟩ U4
+          have U2 : UniqueRef (w1.setCont hi.parent (.map m')) := sig3.symm.uniqueRef U3
+          have huq := uniq_pos_map U2 (cont?_setCont_self _ _ _) hy2
+          -- the holder of the reference to `y`
+          have hholdq : ∀ id s, (id, s) ∈ (Cont.map m').treeSlabs → ((Cont.map pm).isInlined = true → id ≠ hi.parent) →
+              (∃ e1 ∈ C10Persist.slabElems s, e1.pay = .ref y) → StoredSince cx1 cx2 id := by
+            intro id s h1 h2 h3
+            rcases Bool.eq_false_or_eq_true pm.isInlined with hi0 | hi0
+            · refine map_hold_inl hcfg (hpok.2 hi0) he2' hpe hs (hok'.2 (by rw [hinl']; exact hi0)) huq id s h1 ?_ h3
+              rw [hrid, hvid]
+              exact h2 hi0
+            · exact map_hold hcfg (hpok.1 hi0).1 he2' hpe hs (hok'.1 (by rw [hinl']; exact hi0)).1 huq id s h1 h3
+          exact track_step (w := w) (w1 := w1) (w2 := w1.setCont hi.parent (.map m')) (w3 := w3) (qc := .map pm)
             (qc' := .map m') (c1 := c1) hne P.heap hvid hpm hcoy (cont?_setCont_self _ _ _)
             (fun z hz => cont?_setCont_ne _ _ _ _ hz) hinl' htree'.1 (hrid.trans hvid)
-            (ext_of_post post1) (ext_of_log hlog) (ext_of_post post23) hholdq tr3 (kept_of_post post23)
+            (ext_of_post post1) (ext_of_log hlog) (ext_of_post post23) hholdq (tr3 U3) (kept_of_post post23)
             h3y hq3 hf3 U3 hqy3 hcw4
         · exact hS13.trans ⟨T_setCallbackMap _ _ _ _, fun q => by rw [hcw4]⟩
         · intro z hzy hrz
